@@ -2933,7 +2933,7 @@ def convert_conv_groups(op: Operation, arch, nng):
             # third input is bias. like the weights, the bias needs to be split equally across all of the convolution
             # groups
             if op.bias is None:
-                conv_group_op.add_input_tensor(None)
+                conv_group_op.inputs.append(None)
             else:
                 conv_group_op_bias_shape = op.bias.shape[:-1] + [num_filters_cg]
                 conv_group_op_bias_quant = op.bias.quantization.clone()
